@@ -807,6 +807,14 @@ func isSafeForMultilineReverseSuffix(re *syntax.Regexp) bool {
 		return false
 	}
 
+	// The searcher works line by line: it maps a suffix candidate to the start of
+	// its line and looks for a match there. That is only right when a match cannot
+	// leave the line it starts on. `(?m)^[^x]+\.txt` on "a\nb.txt" matches [0,7]
+	// across the newline, which a per-line search would report as [2,7].
+	if canMatchNewline(re) {
+		return false
+	}
+
 	switch re.Op {
 	case syntax.OpConcat:
 		if len(re.Sub) < 2 {
@@ -840,6 +848,35 @@ func isSafeForMultilineReverseSuffix(re *syntax.Regexp) bool {
 	default:
 		return false
 	}
+}
+
+// canMatchNewline reports whether some match of re may contain '\n':
+// a literal with '\n', a character class that includes it, or (?s:.).
+func canMatchNewline(re *syntax.Regexp) bool {
+	switch re.Op {
+	case syntax.OpLiteral:
+		for _, r := range re.Rune {
+			if r == '\n' {
+				return true
+			}
+		}
+		return false
+	case syntax.OpCharClass:
+		for i := 0; i+1 < len(re.Rune); i += 2 {
+			if re.Rune[i] <= '\n' && '\n' <= re.Rune[i+1] {
+				return true
+			}
+		}
+		return false
+	case syntax.OpAnyChar:
+		return true
+	}
+	for _, sub := range re.Sub {
+		if canMatchNewline(sub) {
+			return true
+		}
+	}
+	return false
 }
 
 // isWildcardOp checks if the op is a wildcard pattern (.*, .+, or [charclass]+)
